@@ -285,7 +285,7 @@ pub fn run_case<V: VringT<GM> + Clone + Send + Sync + 'static>(case: &Value, tra
                 let r = (rig.handlers_reg)(t, e.as_raw_fd(), id);
                 status = if r.is_ok() { "ok".into() } else { "err".into() };
                 if r.is_ok() {
-                    rig.tb.listeners.lock().unwrap().push(e.clone());
+                    rig.tb.listeners.lock().unwrap().push((t, e.clone()));
                     let _ = e.write(1);
                     listeners.push(e);
                 }
